@@ -164,6 +164,8 @@ type ctFrame struct {
 	ctxName string
 	consts  map[types.Object]bool // parameters bound to a boolean constant by the caller (the callee is specialised)
 	loopDepth int
+	verdictCond int // > 0 while the condition of an allowed verdict-shaped `if` is being evaluated
+	retryLoops []bool // per enclosing loop: is it a retry loop (`for {}` drawing fresh randomness)
 }
 
 func NewCtAnalysis(eng *Engine) *ctAnalysis {
@@ -633,7 +635,7 @@ func (fr *ctFrame) eval1(e ast.Expr) tv {
 		a, b := fr.eval(x.X), fr.eval(x.Y)
 		if x.Op == token.LAND || x.Op == token.LOR {
 			// short circuit: the right operand is evaluated depending on the left one
-			fr.oblige("ct-branch", x.X, !a.v, "left operand of "+x.Op.String()+" decides whether the right operand is evaluated and depends on a secret")
+			fr.oblige("ct-branch", x.X, !a.v || fr.verdictCond > 0, "left operand of "+x.Op.String()+" decides whether the right operand is evaluated and depends on a secret")
 		}
 		if x.Op == token.QUO || x.Op == token.REM {
 			if tb, ok := fr.info.Types[x.Y]; !ok || tb.Value == nil {
@@ -1188,11 +1190,35 @@ func (fr *ctFrame) stmt(s ast.Stmt) {
 			}
 			return
 		}
+		// is this `if` shaped like a verdict the contract allows? (decided on the shape alone, before the condition is evaluated,
+		// so that the short-circuit operands inside the condition belong to the same verdict)
+		shapeOK := false
+		if fr.ct != nil && fr.ct.Verdicts && fr.loopDepth == 0 && fr.verdictShaped(x) {
+			shapeOK = true
+		}
+		if fr.ct != nil && fr.ct.RetryVerdicts && len(fr.retryLoops) > 0 && fr.retryLoops[len(fr.retryLoops)-1] && x.Else == nil && x.Init == nil && len(x.Body.List) == 1 {
+			if br, ok := x.Body.List[0].(*ast.BranchStmt); ok && br.Tok == token.CONTINUE && br.Label == nil {
+				shapeOK = true
+			}
+		}
+		if shapeOK {
+			fr.verdictCond++
+		}
 		c := fr.eval(x.Cond)
+		if shapeOK {
+			fr.verdictCond--
+		}
 		if c.v && fr.ct != nil && fr.ct.Verdicts && fr.loopDepth == 0 && fr.verdictShaped(x) {
 			// the function's accept/reject verdict: outside every loop, and each arm only returns public values
 			fr.an.declUsed[fr.fi.Key+": verdict branch `"+fr.text(x.Cond)+"`"] = "verdict-shaped (clause `verdicts`): not inside a loop, every arm only returns values that do not depend on a secret"
 			c.v = false
+		}
+		if c.v && fr.ct != nil && fr.ct.RetryVerdicts && len(fr.retryLoops) > 0 && fr.retryLoops[len(fr.retryLoops)-1] && x.Else == nil && x.Init == nil && len(x.Body.List) == 1 {
+			if br, ok := x.Body.List[0].(*ast.BranchStmt); ok && br.Tok == token.CONTINUE && br.Label == nil {
+				// rejection of the current candidate in a retry loop: the candidate is discarded and fresh randomness is drawn
+				fr.an.declUsed[fr.fi.Key+": rejection `"+fr.text(x.Cond)+"`"] = "candidate rejection in a retry loop (clause `retry_verdicts`): the body is a bare `continue` of a `for {}` loop that draws fresh randomness"
+				c.v = false
+			}
 		}
 		fr.oblige("ct-branch", x.Cond, !c.v, "branch condition depends on a secret")
 		base := fr.env
@@ -1208,6 +1234,22 @@ func (fr *ctFrame) stmt(s ast.Stmt) {
 		if x.Init != nil {
 			fr.stmt(x.Init)
 		}
+		// a retry loop: `for { ... }` whose body draws fresh randomness (rejection sampling)
+		isRetry := false
+		if x.Init == nil && x.Cond == nil && x.Post == nil {
+			ast.Inspect(x.Body, func(n ast.Node) bool {
+				if c, ok := n.(*ast.CallExpr); ok {
+					if sel, ok := unparen(c.Fun).(*ast.SelectorExpr); ok {
+						if fn, ok := fr.info.Uses[sel.Sel].(*types.Func); ok && (funcKey(fn) == "io.ReadFull" || funcKey(fn) == "io.ReadAtLeast") {
+							isRetry = true
+						}
+					}
+				}
+				return true
+			})
+		}
+		fr.retryLoops = append(fr.retryLoops, isRetry)
+		defer func() { fr.retryLoops = fr.retryLoops[:len(fr.retryLoops)-1] }()
 		fr.loop(func() {
 			if x.Cond != nil {
 				c := fr.eval(x.Cond)
@@ -1221,6 +1263,8 @@ func (fr *ctFrame) stmt(s ast.Stmt) {
 		})
 	case *ast.RangeStmt:
 		t := fr.eval(x.X)
+		fr.retryLoops = append(fr.retryLoops, false)
+		defer func() { fr.retryLoops = fr.retryLoops[:len(fr.retryLoops)-1] }()
 		fr.loop(func() {
 			if x.Key != nil {
 				fr.assignTo(x.Key, tv{v: t.v && !isArrayVal(fr.info.TypeOf(x.X)) && scalarish(fr.info.TypeOf(x.X))}, nil)
